@@ -967,6 +967,11 @@ class Exec(Engine):
         self._obj_n = getattr(self, '_obj_n', 0) + 1
         prefix = f'new{self._obj_n}_{cls_name}'
         self.populate_object(st, prefix, cls_name, 0)
+        decl = self.R.find_class_by_name(cls_name)
+        for d in self.class_chain(decl):
+            for g, expr in d.ghost_init.items():
+                path = f'{prefix}.{g}'
+                st.heap[path] = self.coerce(self.eval_spec_in(st, expr, {}), st.heap[path].t)
         for k, v in st.heap.items():
             if k.startswith(prefix + '.'):
                 st.old.setdefault(k, v)
@@ -984,6 +989,8 @@ class Exec(Engine):
                             for nm in getattr(self.cur, 'cand_locals', ()):
                                 if st.has(nm):
                                     b[nm] = st.get(nm)
+                            for k_, v_ in binds.items():
+                                b['arg_' + k_] = v_
                             self.vc(st, self.eval_clause(st, cl, b), name=f'at[{cal}@{self.call_site_id(line)}][{cl.label()}]',
                                     kind='ensures', line=line, serves=cl.serves)
         for cl in c.requires:
@@ -1010,7 +1017,7 @@ class Exec(Engine):
                     ex_st.assume(self.eval_clause(ex_st, cl, b2, old=pre_heap))
             if self.feasible(ex_st):
                 outs.append(Outcome('raise', ex_st, {'exc': exc, 'from': c.key}))
-        self.havoc(st, self.frame_paths(c, binds, st))
+        self.havoc(st, self.frame_paths(c, binds, st) + [self.resolve_ghost_path(g, binds) for g in c.ghost_at_exit])
         rt = parse_type(c.returns)
         if rt.k == 'obj':
             res = self.new_object(st, rt.name)
@@ -1044,11 +1051,10 @@ class Exec(Engine):
 
     def call_site_id(self, line):
         # stable across unrelated edits: ordinal of the call site within the function, not its line number
-        self._sites = getattr(self, '_sites', {})
-        key = (self.cur_fkey, line)
-        if key not in self._sites:
-            self._sites[key] = sum(1 for k in self._sites if k[0] == self.cur_fkey)
-        return self._sites[key]
+        lines = getattr(self, 'call_lines', None)
+        if lines and line in lines:
+            return lines.index(line)
+        return f'L{line}'
 
     def resolve_ghost_path(self, gpath: str, binds: dict):
         if gpath.startswith('self.'):
@@ -1258,6 +1264,9 @@ class Exec(Engine):
             raise Unsupported('for/else')
         loop_id = self.loop_id(s, st)
         it_outs = []
+        gen = self.generator_call(s.iter, st)
+        if gen is not None:
+            return self.run_for_generator(s, st, gen, loop_id)
         if isinstance(s.iter, ast.Call) and self.is_effectful_call(st, s.iter):
             res = self.exec_call(s.iter, st, want_value=True)
         else:
@@ -1502,8 +1511,108 @@ class Exec(Engine):
     def check_measure(self, st0, head, end, ln, line):
         pass
 
-    def run_for_generator(self, s, st, itv, loop_id):
-        raise Unsupported('generator consumption not built yet')
+    def generator_call(self, it, st: State):
+        """`for x in obj.meth(...)` where the class of obj declares a step contract `meth#yield`."""
+        if not (isinstance(it, ast.Call) and isinstance(it.func, ast.Attribute)):
+            return None
+        try:
+            recv = Evaluator(self, st.fork()).ev(it.func.value)
+        except (Unsupported, KeyError):
+            return None
+        c = self.method_contract_for(recv, it.func.attr + '#yield')
+        return (c, recv) if c is not None else None
+
+    def run_for_generator(self, s, st: State, gen, loop_id):
+        """Consumer side of a generator: each iteration first applies the step contract (what one yield tells the
+        consumer), then runs the body.  The generator may stop after any number of yields."""
+        c, recv = gen
+        ln = loop_id.split('#loop')[1]
+        line = s.lineno
+        pool = self.candidate_pool()
+        cname = c.key.split(':')[1].split('#')[0].split('.')[-1]
+        if self.cur is not None and not self.trial:
+            for cal, clauses in self.cur.at_call.items():
+                if cal == cname:
+                    for cl in _as_clauses(clauses):
+                        if self.active(cl):
+                            b = dict(self.entry_binds)
+                            for nm in getattr(self.cur, 'cand_locals', ()):
+                                if st.has(nm):
+                                    b[nm] = st.get(nm)
+                            self.vc(st, self.eval_clause(st, cl, b), name=f'at[{cal}@{self.call_site_id(line)}][{cl.label()}]',
+                                    kind='ensures', line=line, serves=cl.serves)
+
+        def step(h: State):
+            outs = []
+            for o in self.apply_contract(c, {'self': recv}, h, line):
+                if o.kind != 'next':
+                    outs.append(o)
+                    continue
+                for r in self.assign_to(s.target, o.val, o.st, line):
+                    if r.kind == 'next':
+                        outs += self.exec_block(s.body, r.st)
+                    else:
+                        outs.append(r)
+            return outs
+
+        names, paths = self.discover_writes(step, st)
+        names -= {n.id for n in ast.walk(s.target) if isinstance(n, ast.Name)}
+        init_forms = self.eval_candidates(st, pool, {})
+        hk = self.hkey(loop_id, st)
+        if self.houdini_fixed:
+            active = [l for l in self.houdini.get(hk, []) if l in init_forms]
+        else:
+            active = list(init_forms)
+            for l in list(active):
+                if self.check_valid(st, init_forms[l])[0] != 'discharged':
+                    active.remove(l)
+            changed = True
+            while changed:
+                changed = False
+                h = st.fork()
+                self.havoc_loop(h, names, paths)
+                forms = self.eval_candidates(h, pool, {})
+                active = [l for l in active if l in forms]
+                for l in active:
+                    h.assume(forms[l])
+                self.trial += 1
+                try:
+                    body_outs = step(h) if self.feasible(h) else []
+                finally:
+                    self.trial -= 1
+                for bo in body_outs:
+                    if bo.kind not in ('next', 'continue'):
+                        continue
+                    f2 = self.eval_candidates(bo.st, pool, {})
+                    for l in list(active):
+                        if l not in f2 or self.check_valid(bo.st, f2[l])[0] != 'discharged':
+                            active.remove(l)
+                            changed = True
+            self.houdini[hk] = list(active)
+        outs = []
+        labmap = {cc.label(): cc for cc in pool}
+        for l in active:
+            self.vc(st, init_forms[l], name=f'loop{ln}.init[{l}]', kind='inv-init', line=line, serves=labmap[l].serves)
+        h = st.fork()
+        self.havoc_loop(h, names, paths)
+        forms = self.eval_candidates(h, pool, {})
+        for l in active:
+            if l in forms:
+                h.assume(forms[l])
+        exit_state = h.fork()
+        if self.feasible(h):
+            for bo in step(h):
+                if bo.kind in ('next', 'continue'):
+                    f2 = self.eval_candidates(bo.st, pool, {})
+                    for l in active:
+                        if l in f2:
+                            self.vc(bo.st, f2[l], name=f'loop{ln}.preserve[{l}]', kind='inv-preserve', line=line, serves=labmap[l].serves)
+                elif bo.kind == 'break':
+                    outs.append(Outcome('next', bo.st))
+                else:
+                    outs.append(bo)
+        outs.append(Outcome('next', exit_state))
+        return outs
 
     # ------------------------------------------------------------------ function verification
     def initial_state(self, c: Contract):
@@ -1576,6 +1685,7 @@ class Exec(Engine):
             pass
         for x in sorted((y for y in ast.walk(fn) if isinstance(y, (ast.For, ast.While))), key=lambda y: (y.lineno, y.col_offset)):
             self.loop_ordinals[(x.lineno, x.col_offset)] = len(self.loop_ordinals) + 1
+        self.call_lines = sorted({x.lineno for x in ast.walk(fn) if isinstance(x, (ast.Call, ast.For))})
         self.ret_local = self.find_ret_local(fn)
         self.ret_type = c.returns
         st, binds = self.initial_state(c)
@@ -1619,6 +1729,14 @@ class Exec(Engine):
             tgt = self.resolve_ghost_path(gpath, binds)
             entry_view = State(st.frames, st.old, st.pc, st.old)
             st.heap[tgt] = self.eval_spec_in(entry_view, gexpr, binds, heap=st.old, old=st.old)
+        for gpath, gexpr in c.ghost_at_exit.items():
+            tgt = self.resolve_ghost_path(gpath, binds)
+            b3 = dict(b2)
+            for nm in c.cand_locals:
+                if st.has(nm):
+                    b3[nm] = st.get(nm)
+            nv = self.eval_spec_in(st, gexpr, b3)
+            st.heap[tgt] = self.coerce(nv, st.heap[tgt].t) if tgt in st.heap else nv
         for cl in c.ensures:
             if not self.active(cl):
                 continue
@@ -1637,10 +1755,13 @@ class Exec(Engine):
 
     def check_frame(self, c: Contract, st: State, binds):
         """Everything outside the declared frame (and outside ghost updates) is unchanged."""
-        allowed = set(self.frame_paths(c, binds, st)) | {self.resolve_ghost_path(g, binds) for g in c.ghost_exit}
+        allowed = set(self.frame_paths(c, binds, st)) | {self.resolve_ghost_path(g, binds) for g in c.ghost_exit} \
+            | {self.resolve_ghost_path(g, binds) for g in c.ghost_at_exit}
         for p, v in st.heap.items():
             if p in allowed or p not in st.old or v.t.k == 'obj':
                 continue
+            if p.startswith('new') and p.split('_')[0][3:].isdigit():
+                continue      # fields of objects allocated by this call are not part of the caller-visible frame
             o = st.old[p]
             if v.z is o.z:
                 continue
